@@ -1,6 +1,74 @@
-import Asts.Spec.Reconcile
+import Asts.Proofs.L1_a_Final
 
-/-! # C04 — property theorems (under construction) -/
+/-! # C04 — pods are created only at vacant desired ordinals
+
+Property theorems only; the lemmas live in `Asts/Proofs/L1_a_*.lean`. `updateStatefulSet` is the model of the reconcile
+function (tied to the Go code by the `reconcile` engine), `observe` is what a recording pod control sees of its actions,
+`C04` is the monitor of `Asts/Spec/Reconcile.lean`. All theorems hold for every spec (replicas absent, negative, any slot
+list), every pod list and every fault plan: there is no hypothesis on `v.replicas`.
+
+Hypotheses, and why each is needed:
+* `pods.all Pod.created` — every pod object of the snapshot carries a phase (the API server stamps `Pending`); a pod object
+  with an empty phase is re-created by the real code (the excluded point of DESIGN §6 C04). It is the half of `wfSnapshot`
+  that C04 needs; distinct ordinals are NOT needed.
+* `IdsOk pods` — the identities by which a recorded delete names its pod are pairwise distinct and below `freshId`
+  (the harness numbers pods by position). Without it the monitor cannot tell which pod a delete was given. -/
 namespace Asts.C04
+
+/-- **C04**: the monitor is true on the model's output for every spec, snapshot and fault plan. -/
+theorem C04_holds (v : SetView) (cur upd : String) (pods : List Pod) (f : Faults)
+    (hcr : pods.all Pod.created = true) (hids : IdsOk pods) :
+    C04 v pods (observe (updateStatefulSet v cur upd pods f).1.acts) = true :=
+  C04_holds_gen v cur upd pods f hcr hids
+
+/-- C04 under exactly the preconditions the run-time monitor (`monitorRc`) evaluates it with: `wfSnapshot`, pod ids are
+    their positions, fewer than `freshId` pods. -/
+theorem C04_holds_monitor (v : SetView) (cur upd : String) (pods : List Pod) (f : Faults)
+    (hwf : wfSnapshot pods = true) (hpos : pods.map Pod.id = List.range pods.length) (hlen : pods.length ≤ freshId) :
+    C04 v pods (observe (updateStatefulSet v cur upd pods f).1.acts) = true :=
+  Asts.C04_holds_monitor v cur upd pods f hwf hpos hlen
+
+/-- `Prop` reading, on the model's own action list: a create at `o`, wherever it stands, is for a desired ordinal that is
+    not a listed slot, of a set that is not being deleted, and `o` is vacant in the snapshot or held a Failed/Succeeded pod
+    whose deletion stands earlier in the same list. -/
+theorem C04_prop (v : SetView) (cur upd : String) (pods : List Pod) (f : Faults)
+    (hcr : pods.all Pod.created = true) {pre post : List Action} {o : Int} {rev : String}
+    (h : (updateStatefulSet v cur upd pods f).1.acts = pre ++ .create o rev :: post) :
+    o ∈ desired (replicasOf v) v.slots ∧ o ∉ v.slots ∧ v.deleting = false ∧
+      ((∀ q ∈ pods, q.ord ≠ o) ∨
+       ∃ p ∈ pods, p.ord = o ∧ (p.failed = true ∨ p.succeeded = true) ∧ Action.delete o p.id .replaceFailed ∈ pre) :=
+  C04_reading v cur upd pods f hcr h
+
+/-- A delete slot is never (re-)populated while it stays listed — no hypothesis at all. -/
+theorem slot_never_populated (v : SetView) (cur upd : String) (pods : List Pod) (f : Faults) {o : Int}
+    (ho : o ∈ v.slots) (rev : String) : Action.create o rev ∉ (updateStatefulSet v cur upd pods f).1.acts :=
+  slot_not_repopulated v cur upd pods f ho rev
+
+/-- Nothing is created (or deleted) for a set that is being deleted. -/
+theorem deleting_set_untouched (v : SetView) (cur upd : String) (pods : List Pod) (f : Faults) (hdel : v.deleting = true) :
+    (updateStatefulSet v cur upd pods f).1.acts = [] :=
+  uss_deleting_acts v cur upd pods f hdel
+
+/-! non-vacuity: replicas 3, slot 1 listed; ordinal 0 holds a Failed pod, 1 (a slot) and 3 (beyond) hold live pods, 2 is
+    vacant. The hypotheses hold and the reconcile replaces 0, fills 2, and deletes 1 and 3. -/
+private def exV : SetView :=
+  { replicas := some 3
+    slots := [1]
+    parallel := true
+    strat := .rolling
+    ru := some (some 0)
+    deleting := false
+    generation := 1
+    stCurrentReplicas := 0 }
+private def exPods : List Pod := [
+  { id := 0, ord := 0, phase := .failed, ready := false, terminating := false, rev := "b", idOk := true, stOk := true },
+  { id := 1, ord := 1, phase := .running, ready := true, terminating := false, rev := "b", idOk := true, stOk := true },
+  { id := 2, ord := 3, phase := .running, ready := true, terminating := false, rev := "a", idOk := true, stOk := true }]
+
+example : exPods.all Pod.created = true ∧ wfSnapshot exPods = true ∧
+    exPods.map Pod.id = List.range exPods.length ∧ exPods.length ≤ freshId := by decide
+example : IdsOk exPods := idsOk_of_positions (by decide) (by decide)
+example : observe (updateStatefulSet exV "a" "b" exPods []).1.acts =
+    [.delete 0 (some 0), .create 0 "b", .create 2 "b", .delete 1 (some 1), .delete 3 (some 2)] := by decide
 
 end Asts.C04
